@@ -19,6 +19,7 @@ func main() {
 	shard := flag.Int("shard", 0, "")
 	of := flag.Int("of", 1, "")
 	out := flag.String("out", "", "")
+	group := flag.String("group", "all", "all|plain|race")
 	scratch := flag.String("scratch", "", "")
 	replay := flag.String("replay", "", "replay file")
 	exe := flag.String("exe", "", "plain worker binary")
@@ -56,7 +57,7 @@ func main() {
 		os.Exit(2)
 	}
 	if *worker {
-		fw.RunWorker(m, *tier, seed, *shard, *of, *out, *scratch)
+		fw.RunWorker(m, *tier, seed, *shard, *of, *out, *scratch, *group)
 		return
 	}
 	self, _ := os.Executable()
